@@ -90,9 +90,11 @@ func (f *ReadLine) Call(s *slip.Scope, args slip.List, depth int) slip.Object {
 					}
 					return slip.Values{result, slip.True}
 				}
-				ss, _ := is.(slip.Stream)
-				slip.StreamPanic(s, depth, ss, "read failed. %s", err)
 			}
+			// Any other failure to read ends the read as well, going on
+			// would append to the line forever.
+			ss, _ := is.(slip.Stream)
+			slip.StreamPanic(s, depth, ss, "read failed. %s", err)
 		}
 		if r == '\n' {
 			break
